@@ -238,7 +238,7 @@ func (s *Solver) CheckSet(terms []*Term, vars []string, wantModel bool) (SatResu
 	default:
 		atomic.AddInt64(&gStats.Unknown, 1)
 	}
-	if d := os.Getenv("SYMGO_DUMPQ"); d != "" && time.Since(t0) > 15*time.Millisecond {
+	if d := os.Getenv("SYMGO_DUMPQ"); d != "" && time.Since(t0) > time.Duration(dumpqMinMs())*time.Millisecond {
 		if n := atomic.AddInt64(&gDumped, 1); n <= 20 {
 			os.WriteFile(fmt.Sprintf("%s/q%d_%dms.smt2", d, n, time.Since(t0).Milliseconds()), []byte(s.dump(nil, false)), 0o644)
 		}
@@ -405,3 +405,11 @@ func init() {
 	gBackendUse.m = map[string]int{}
 }
 var gDumped int64
+
+// dumpqMinMs is the minimum duration of a query dumped under SYMGO_DUMPQ (SYMGO_DUMPQ_MS, default 15).
+func dumpqMinMs() int {
+	if v, err := strconv.Atoi(os.Getenv("SYMGO_DUMPQ_MS")); err == nil {
+		return v
+	}
+	return 15
+}
